@@ -41,7 +41,7 @@ def heapGet (a : Addr) : M Cell := do
   let s ← getS
   match s.heap[a]? with
   | some c => pure c
-  | none => panic "model: dangling address"
+  | none => unsupported "model: dangling address"
 
 def heapSet (a : Addr) (c : Cell) : M Unit :=
   modS fun s => { s with heap := s.heap.set! a c }
@@ -60,7 +60,7 @@ def curCode : M Code := do
   | some a =>
     match (← heapGet a) with
     | .fn c _ => pure ((← getS).codes[c]!)
-    | _ => panic "model: frame function is not a function"
+    | _ => unsupported "model: frame function is not a function"
 
 /-- `vm.curInsts[i]` -/
 def instAt (i : Int) : M Nat := do
@@ -114,12 +114,12 @@ def strBytes (s : String) : Bytes := s.toUTF8.toList
 def arrElems (a : Addr) (off len : Nat) : M (List V) := do
   match (← heapGet a) with
   | .arr xs => pure ((xs.toList.drop off).take len)
-  | _ => panic "model: array address does not hold an array"
+  | _ => unsupported "model: array address does not hold an array"
 
 def mapEntries (a : Addr) : M (List (Bytes × V)) := do
   match (← heapGet a) with
   | .map kvs => pure kvs
-  | _ => panic "model: map address does not hold a map"
+  | _ => unsupported "model: map address does not hold a map"
 
 /-- `Object.String()` for the kinds whose text does not depend on Go library float
     formatting or on map iteration order -/
@@ -138,7 +138,7 @@ def vString (v : V) : M Bytes := do
     | .err name msg _ =>
       let n := if name.isEmpty then strBytes "error" else name
       pure (n ++ strBytes ": " ++ msg)
-    | _ => panic "model: bad error cell"
+    | _ => unsupported "model: bad error cell"
   | .nil => panic "runtime error: invalid memory address or nil pointer dereference"
   | v => unsupported s!"String() of {typeName v}"
 
@@ -351,7 +351,7 @@ def vIndexGet (t i : V) : M (Except OpErr V) := do
         else if k == strBytes "Message" then pure (.ok (.str msg))
         else if k == strBytes "New" then unsupported "error.New"
         else pure (.ok .undefined)
-      | _ => panic "model: bad error cell"
+      | _ => unsupported "model: bad error cell"
   | .int _ | .uint _ | .float _ | .char _ | .bool _ | .cfun _ | .builtin _ | .iter _ =>
     pure (.error (.named "NotIndexableError" ""))
   | t => unsupported s!"IndexGet on {typeName t}"
@@ -365,7 +365,7 @@ def vIndexSet (t i v : V) : M (Except OpErr Unit) := do
       if n ≥ 0 && n < len then
         match (← heapGet a) with
         | .arr xs => heapSet a (.arr (xs.set! (off + n.toNat) v)); pure (.ok ())
-        | _ => panic "model: array address does not hold an array"
+        | _ => unsupported "model: array address does not hold an array"
       else pure (.error (.named "IndexOutOfBoundsError" ""))
     | none => pure (.error (.named "TypeError" s!"index type expected int|uint, found {typeName i}"))
   | .map a =>
